@@ -923,10 +923,42 @@ def snap(x):
     return S("+", x, 0)
 
 
+DATA_MUT = {"put", "array/push", "array/pop", "array/concat"}
+
+
+def mutates_data(x):
+    """may evaluating x change the CONTENTS of an array / table (a spliced operand is read when the call is made)"""
+    if impure(x):
+        return True
+    if isinstance(x, T) and not x.br and x.xs and isinstance(x.xs[0], Sym) and x.xs[0].name in DATA_MUT:
+        return True
+    if isinstance(x, (T, Lit)):
+        return any(mutates_data(y) for y in x.xs)
+    return False
+
+
+def splice_arg(x):
+    """(splice A) or (unquote (splice A)) -> the form holding A, else None"""
+    if isinstance(x, T) and not x.br and len(x.xs) == 2 and isinstance(x.xs[0], Sym):
+        if x.xs[0].name == "splice":
+            return x
+        if x.xs[0].name == "unquote":
+            return splice_arg(x.xs[1])
+    return None
+
+
+def snap_splice(sp):
+    if not (isinstance(sp.xs[1], T) and sp.xs[1].xs and sp.xs[1].xs[0] == Sym("tuple/slice")):
+        sp.xs[1] = S("tuple/slice", sp.xs[1])
+
+
 def fix_operands(ops, muts):
     for i in range(len(ops)):
         if aliasing(ops[i], muts) and any(impure(y) for y in ops[i + 1:]):
             ops[i] = snap(ops[i])
+        sp = splice_arg(ops[i])
+        if sp is not None and any(mutates_data(y) for y in ops[i + 1:]):
+            snap_splice(sp)
     return ops
 
 
@@ -952,6 +984,7 @@ def hazard_fix(x, muts):
                 inner = q.xs[1]
                 if isinstance(inner, T) and inner.xs and inner.xs[0] == Sym("splice"):
                     inner.xs[1] = hazard_fix(inner.xs[1], muts)
+                    ops.append(q)
                 else:
                     q.xs[1] = hazard_fix(inner, muts)
                     ops.append(q)
@@ -961,7 +994,11 @@ def hazard_fix(x, muts):
                     walk(y)
         walk(x.xs[1])
         for i, q in enumerate(ops):
-            if aliasing(q.xs[1], muts) and any(impure(p.xs[1]) for p in ops[i + 1:]):
+            sp = splice_arg(q)
+            if sp is not None:
+                if any(mutates_data(p.xs[1]) for p in ops[i + 1:]):
+                    snap_splice(sp)
+            elif aliasing(q.xs[1], muts) and any(impure(p.xs[1]) for p in ops[i + 1:]):
                 q.xs[1] = snap(q.xs[1])
         return x
     hn = h.name if isinstance(h, Sym) else None
